@@ -6,6 +6,31 @@ from .C20 import native_ckm, unit_dev
 
 def main():
     kind = sys.argv[1]
+    if kind == 'lqcd':
+        lib = harness_native('h_mf')
+        f = native_fn(lib, 'vx_lambda_qcd', 2)
+        v = f(float(sys.argv[2]), float(sys.argv[3]))
+        print('Lambda_QCD =', v)
+        sys.exit(0 if v == v else 1)
+    if kind == 'mf':
+        import math
+        sub, fname = sys.argv[2], sys.argv[3]
+        vals = [float(v) for v in sys.argv[4:]]
+        lib = harness_native('h_mf')
+        if sub == 'monotone':
+            nf = native_fn(lib, fname, len(vals) - 1)
+            a, b = nf(*vals[:-1]), nf(*(vals[:-2] + [vals[-1]]))
+            print(a, b)
+            sys.exit(0 if a > b else 1)
+        nf = native_fn(lib, fname, len(vals))
+        if sub == 'compose':
+            q0 = vals[-1]
+            a, b, c = nf(*vals), nf(*(vals[:-1] + [2 * q0])), nf(*(vals[:-1] + [4 * q0]))
+            print(a, b, c)
+            sys.exit(0 if abs(a * c - b * b) <= 1e-9 * abs(b * b) else 1)
+        got = nf(*vals)
+        print(got)
+        sys.exit(0 if (math.isfinite(got) and (sub != 'positive' or got > 0)) else 1)
     vals = [float(v) for v in sys.argv[2:]]
     lib = harness_native('h_sm')
     if kind == 'angles':
